@@ -361,6 +361,7 @@ inductive Query
   | shape            -- Kymo.shape: reconstructs the red image; Scan.shape: num_frames
   | duration         -- Kymo.duration: line time, then shape
   | numFrames
+  | rgb              -- get_image("rgb"): the three memoised colour planes, stacked anew on every call
 deriving DecidableEq, Repr
 
 def numFrames (h : Heap) (i : Nat) : Heap × Ans :=
@@ -380,6 +381,13 @@ def seq2 (m1 m2 : Heap → Heap × Ans) (h : Heap) : Heap × Ans :=
 def minMax (f : File) (i : Nat) : Heap → Heap × Ans :=
   seq2 (fun h => evalTop f h i (.ts .min)) (fun h => evalTop f h i (.ts .max))
 
+/-- `get_image("rgb")` = `np.stack([self.get_image(c) for c in ("red", "green", "blue")], axis=-1)`: three memoised
+    calls in a row (an exception of one ends the query); the stack itself is NOT memoised, the answer is
+    `pair (pair red green) blue` -/
+def rgbImage (f : File) (i : Nat) : Heap → Heap × Ans :=
+  seq2 (seq2 (fun h => evalTop f h i (.image .red)) (fun h => evalTop f h i (.image .green)))
+    (fun h => evalTop f h i (.image .blue))
+
 def queryLive (f : File) (h : Heap) (i : Nat) (o : Obj) : Query → Heap × Ans
   | .static k => (h, .static o.path k)
   | .start => (h, .int o.start)
@@ -390,6 +398,7 @@ def queryLive (f : File) (h : Heap) (i : Nat) (o : Obj) : Query → Heap × Ans
   | .shape => if f.isScan then numFrames h i else evalTop f h i (.image .red)
   | .duration => seq2 (fun h => evalTop f h i .lineTime) (fun h => evalTop f h i (.image .red)) h
   | .numFrames => numFrames h i
+  | .rgb => rgbImage f i h
 
 def query (f : File) (h : Heap) (i : Nat) (q : Query) : Heap × Ans :=
   match h[i]? with
@@ -573,7 +582,7 @@ def freshAll (f : File) (s e : Int) (ops : List Op) : List Ans :=
   `c19.hist  <t0> <dt> <iw> <P> <scan T|F> <pure T|F> <red> <green> <blue> <start> <stop> <op>*`
   `c19.fresh …same…`
   channel = `N` | `start:len`; op = `q:<obj>:<query>` | `d:<obj>:<derive>`;
-  query = `static.<k>|start|stop|infowave|pixelTime|lineTime|image.<r|g|b>|ts.<mean|min|max>|lineRanges|shape|
+  query = `static.<k>|start|stop|infowave|pixelTime|lineTime|image.<r|g|b|rgb>|ts.<mean|min|max>|lineRanges|shape|
   duration|numFrames`; derive = `copy|slice.<a|N>.<b|N>|view.<full|coarse|flip>|scanView|pure|placeholder`.
   Answers are joined with `|`.
 -/
@@ -633,6 +642,7 @@ def query? (s : String) : Option Query :=
   | ["infowave"] => some .infowave
   | ["pixelTime"] => some (.prim .pixelTime)
   | ["lineTime"] => some (.prim .lineTime)
+  | ["image", "rgb"] => some .rgb
   | ["image", c] => (color? c).map fun c => .prim (.image c)
   | ["ts", r] => (red? r).map fun r => .prim (.ts r)
   | ["lineRanges"] => some .lineRanges
